@@ -162,7 +162,7 @@ fn single_u64(cx: &mut Ctx, si: usize, v: u64, tail: &[u8], force: bool) {
     let cell = format!("VarIntEncoder/{}/u64", name);
     // the preset constructor (VarIntEncoder::leb128() ...) on half of the cases; it must build the same encoder
     let e = if tail.len() % 2 == 1 { c13_br::preset(si) } else { VarIntEncoder::new(strat) };
-    if e.strategy() != strat { cx.sum.fail(&cell, None, json!({"cell": "preset", "s": si}), &format!("the preset constructor of {} builds strategy {:?}", name, e.strategy())); return; }
+    if e.strategy() != strat { cx.sum.fail(&cell, None, case_json(0, si, &[v as i128], tail), &format!("the preset constructor of {} builds strategy {:?}", name, e.strategy())); return; }
     let key = format!("u64 {} {} {:?}", si, v, tail);
     cx.sum.eval(&cell, &key, v >= 128);
     let enc = guarded(|| e.encode_u64(v));
@@ -197,7 +197,7 @@ fn single_i64(cx: &mut Ctx, si: usize, v: i64, tail: &[u8], force: bool) {
     let cell = format!("VarIntEncoder/{}/i64", name);
     // the preset constructor (VarIntEncoder::leb128() ...) on half of the cases; it must build the same encoder
     let e = if tail.len() % 2 == 1 { c13_br::preset(si) } else { VarIntEncoder::new(strat) };
-    if e.strategy() != strat { cx.sum.fail(&cell, None, json!({"cell": "preset", "s": si}), &format!("the preset constructor of {} builds strategy {:?}", name, e.strategy())); return; }
+    if e.strategy() != strat { cx.sum.fail(&cell, None, case_json(2, si, &[v as i128], tail), &format!("the preset constructor of {} builds strategy {:?}", name, e.strategy())); return; }
     let key = format!("i64 {} {} {:?}", si, v, tail);
     cx.sum.eval(&cell, &key, v >= 64 || v < -64);
     let enc = guarded(|| e.encode_i64(v));
@@ -232,7 +232,7 @@ fn seq_u64(cx: &mut Ctx, si: usize, xs: &[u64], tail: &[u8], force: bool) {
     let cell = format!("VarIntEncoder/{}/u64_seq", name);
     // the preset constructor (VarIntEncoder::leb128() ...) on half of the cases; it must build the same encoder
     let e = if tail.len() % 2 == 1 { c13_br::preset(si) } else { VarIntEncoder::new(strat) };
-    if e.strategy() != strat { cx.sum.fail(&cell, None, json!({"cell": "preset", "s": si}), &format!("the preset constructor of {} builds strategy {:?}", name, e.strategy())); return; }
+    if e.strategy() != strat { cx.sum.fail(&cell, None, case_json(4, si, &xs.iter().map(|&x| x as i128).collect::<Vec<_>>(), tail), &format!("the preset constructor of {} builds strategy {:?}", name, e.strategy())); return; }
     let key = format!("u64s {} {:?} {:?}", si, xs, tail);
     cx.sum.eval(&cell, &key, xs.len() >= 2);
     cx.sum.dist(&format!("seq_len_mod4={}", xs.len() % 4));
@@ -276,7 +276,7 @@ fn seq_i64(cx: &mut Ctx, si: usize, xs: &[i64], tail: &[u8], force: bool) {
     let cell = format!("VarIntEncoder/{}/i64_seq", name);
     // the preset constructor (VarIntEncoder::leb128() ...) on half of the cases; it must build the same encoder
     let e = if tail.len() % 2 == 1 { c13_br::preset(si) } else { VarIntEncoder::new(strat) };
-    if e.strategy() != strat { cx.sum.fail(&cell, None, json!({"cell": "preset", "s": si}), &format!("the preset constructor of {} builds strategy {:?}", name, e.strategy())); return; }
+    if e.strategy() != strat { cx.sum.fail(&cell, None, case_json(6, si, &xs.iter().map(|&x| x as i128).collect::<Vec<_>>(), tail), &format!("the preset constructor of {} builds strategy {:?}", name, e.strategy())); return; }
     let key = format!("i64s {} {:?} {:?}", si, xs, tail);
     cx.sum.eval(&cell, &key, xs.len() >= 2);
     let ints: Vec<i128> = xs.iter().map(|&x| x as i128).collect();
